@@ -744,14 +744,46 @@ pub fn reject_probes(shapes: &[Shape], picks: &[usize]) -> Vec<(String, String, 
             _ => {
                 if sh.mode == Mode::RequireStatic {
                     // whole-type require_static on a type that holds a pointer
-                    let bad = format!("#[derive(Collect)]\n#[collect(require_static)]\npub struct T<'gc> {{ g: Gc<'gc, u32> }}\nfn use_it<'gc>() {{ let _ = <T<'gc> as Collect<'gc>>::NEEDS_TRACE; }}\n");
-                    out.push(("require_static-mode-on-non-static-type".into(), wrap(bad), wrap_use(sh)));
+                    // (an explicit bound must not replace the `Self: 'static` requirement)
+                    let (attr, class) = match pick % 4 {
+                        0 => ("require_static".to_string(), "require_static-mode-on-non-static-type"),
+                        1 => ("require_static, bound = \"\"".to_string(), "require_static-mode-with-bound-on-non-static-type"),
+                        2 => ("bound = \"\", require_static".to_string(), "require_static-mode-with-bound-on-non-static-type"),
+                        _ => ("require_static, bound = \"where u8: Copy\"".to_string(), "require_static-mode-with-bound-on-non-static-type"),
+                    };
+                    let bad = format!("#[derive(Collect)]\n#[collect({attr})]\npub struct T<'a> {{ g: Gc<'a, u32> }}\nfn use_it<'gc>() {{ let _ = <T<'gc> as Collect<'gc>>::NEEDS_TRACE; }}\n");
+                    out.push((class.into(), wrap(bad), wrap_use(sh)));
                 } else {
                     let a = sh.attr().replace("#[collect(", "#[collect(frobnicate, ");
                     out.push(("unknown-option".into(), wrap(sh.decl("T", Some(&a), "")), twin));
                 }
             }
         }
+    }
+    // always present: one fixed probe per refusal named in the property, independent of sampling
+    let fixed: [(&str, &str, &str); 8] = [
+        ("fixed-missing-mode", "#[derive(Collect)]\npub struct T<'gc> { g: Gc<'gc, u32> }", "#[derive(Collect)]\n#[collect(no_drop)]\npub struct T<'gc> { g: Gc<'gc, u32> }"),
+        ("fixed-two-modes", "#[derive(Collect)]\n#[collect(no_drop, unsafe_drop)]\npub struct T<'gc> { g: Gc<'gc, u32> }", "#[derive(Collect)]\n#[collect(unsafe_drop)]\npub struct T<'gc> { g: Gc<'gc, u32> }"),
+        ("fixed-no_drop-with-Drop-impl", "#[derive(Collect)]\n#[collect(no_drop)]\npub struct T<'gc> { g: Gc<'gc, u32> }\nimpl<'gc> Drop for T<'gc> { fn drop(&mut self) {} }", "#[derive(Collect)]\n#[collect(unsafe_drop)]\npub struct T<'gc> { g: Gc<'gc, u32> }\nimpl<'gc> Drop for T<'gc> { fn drop(&mut self) {} }"),
+        ("fixed-no_drop-with-Drop-impl-generic-enum", "#[derive(Collect)]\n#[collect(no_drop)]\npub enum T<'gc, X: Collect<'gc>> { A(X), B(Gc<'gc, u32>) }\nimpl<'gc, X: Collect<'gc>> Drop for T<'gc, X> { fn drop(&mut self) {} }", "#[derive(Collect)]\n#[collect(no_drop)]\npub enum T<'gc, X: Collect<'gc>> { A(X), B(Gc<'gc, u32>) }"),
+        ("fixed-require_static-on-enum-variant", "#[derive(Collect)]\n#[collect(no_drop)]\npub enum T<'gc> { A(Gc<'gc, u32>), #[collect(require_static)] B(u8) }", "#[derive(Collect)]\n#[collect(no_drop)]\npub enum T<'gc> { A(Gc<'gc, u32>), B(#[collect(require_static)] u8) }"),
+        ("fixed-field-type-not-Collect", "pub struct NotC;\n#[derive(Collect)]\n#[collect(no_drop)]\npub struct T<'gc> { g: Gc<'gc, u32>, n: NotC }\nfn use_it<'gc>() { let _ = <T<'gc> as Collect<'gc>>::NEEDS_TRACE; }", "pub struct NotC;\n#[derive(Collect)]\n#[collect(no_drop)]\npub struct T<'gc> { g: Gc<'gc, u32>, #[collect(require_static)] n: NotC }\nfn use_it<'gc>() { let _ = <T<'gc> as Collect<'gc>>::NEEDS_TRACE; }"),
+        ("fixed-two-lifetimes-without-gc_lifetime", "#[derive(Collect)]\n#[collect(no_drop)]\npub struct T<'gc, 'a> { g: Gc<'gc, u32>, s: &'a u8 }", "#[derive(Collect)]\n#[collect(no_drop, gc_lifetime = 'gc)]\npub struct T<'gc, 'a> { g: Gc<'gc, u32>, #[collect(require_static)] s: &'a u8 }"),
+        ("fixed-require_static-field-not-static", "#[derive(Collect)]\n#[collect(no_drop)]\npub struct T<'gc> { n: u8, #[collect(require_static)] g: Gc<'gc, u32> }\nfn use_it<'gc>() { let _ = <T<'gc> as Collect<'gc>>::NEEDS_TRACE; }", "#[derive(Collect)]\n#[collect(no_drop)]\npub struct T<'gc> { n: u8, #[collect(require_static)] s: String, g: Gc<'gc, u32> }\nfn use_it<'gc>() { let _ = <T<'gc> as Collect<'gc>>::NEEDS_TRACE; }"),
+    ];
+    for (class, bad, good) in fixed {
+        out.push((class.to_string(), wrap(bad.to_string()), wrap(good.to_string())));
+    }
+    // an explicit bound must never switch off the 'static requirement of require_static
+    for (i, attr) in ["require_static, bound = \"\"", "bound = \"\", require_static", "require_static, bound = \"where u8: Copy\""].iter().enumerate() {
+        let bad = format!("#[derive(Collect)]\n#[collect({attr})]\npub struct T<'a> {{ g: Gc<'a, u32> }}\nfn use_it<'gc>() {{ let _ = <T<'gc> as Collect<'gc>>::NEEDS_TRACE; }}\n");
+        let good = format!("#[derive(Collect)]\n#[collect({attr})]\npub struct T {{ g: u32 }}\nfn use_it<'gc>() {{ let _ = <T as Collect<'gc>>::NEEDS_TRACE; }}\n");
+        out.push((format!("require_static-mode-with-bound-on-non-static-type-{i}"), wrap(bad), wrap(good)));
+    }
+    for (i, attr) in ["no_drop, bound = \"\"", "no_drop, bound = \"where u8: Copy\""].iter().enumerate() {
+        let bad = format!("#[derive(Collect)]\n#[collect({attr})]\npub struct T<'gc> {{ n: u8, #[collect(require_static)] g: Gc<'gc, u32> }}\nfn use_it<'gc>() {{ let _ = <T<'gc> as Collect<'gc>>::NEEDS_TRACE; }}\n");
+        let good = format!("#[derive(Collect)]\n#[collect({attr})]\npub struct T<'gc> {{ n: u8, #[collect(require_static)] s: String, g: Gc<'gc, u32> }}\nfn use_it<'gc>() {{ let _ = <T<'gc> as Collect<'gc>>::NEEDS_TRACE; }}\n");
+        out.push((format!("require_static-field-with-bound-on-non-static-type-{i}"), wrap(bad), wrap(good)));
     }
     out
 }
